@@ -4,7 +4,7 @@ copies a confirmed seeded change into /verif/seeded/<ID>-<name>/ with an augment
 import json, os, shutil, sys
 pid, d, conf, det = sys.argv[1], sys.argv[2].rstrip("/"), json.loads(sys.argv[3]), sys.argv[4]
 note = sys.argv[5] if len(sys.argv) > 5 else ""
-name = os.path.basename(d)
+name = os.environ.get("SEED_NAME") or os.path.basename(d)
 dst = f"/verif/seeded/{pid}-{name}"
 os.makedirs(dst, exist_ok=True)
 for f in ("patch.diff", "demo.py"):
